@@ -17,6 +17,8 @@ def gen_cases(ctx, n_simple, n_hard):
     cases += [mapcase.gen_core_case(ctx.rng, hard=True) for _ in range(n_hard)]
     # dense tables: few mappings, many composed values (every character class at the edges of a value)
     cases += [mapcase.gen_core_case(ctx.rng, hard=True, joins=False, nrows=ctx.scale(120, 400)) for _ in range(ctx.scale(10, 60))]
+    # the same mapping over same-named tables of two databases (two data-source sections)
+    cases += [mapcase.gen_shard_case(ctx.rng) for _ in range(ctx.scale(8, 80))]
     return cases
 
 
